@@ -626,6 +626,10 @@ BODIES = [
     ("Blocks_search_before", "StringDictionaryHASHRPDACBlocks.cpp", "binary_search_before_index", 0),
     ("Blocks_locate", "StringDictionaryHASHRPDACBlocks.cpp", "StringDictionaryHASHRPDACBlocks::locate", 0),
     ("Blocks_extract", "StringDictionaryHASHRPDACBlocks.cpp", "StringDictionaryHASHRPDACBlocks::extract", 0),
+    ("Blocks_extractTable", "StringDictionaryHASHRPDACBlocks.cpp", "StringDictionaryHASHRPDACBlocks::extractTable", 0),
+    ("BlocksIter_to_index", "iterators/IteratorDictStringHRPDACBlocks.h", "to_index", 0),
+    ("BlocksIter_hasNext", "iterators/IteratorDictStringHRPDACBlocks.h", "hasNext", 0),
+    ("BlocksIter_next", "iterators/IteratorDictStringHRPDACBlocks.h", "next", 0),
     ("RPDAC_locate", "StringDictionaryRPDAC.cpp", "StringDictionaryRPDAC::locate", 0),
     ("RPDAC_extract", "StringDictionaryRPDAC.cpp", "StringDictionaryRPDAC::extract", 0),
     ("RePair_compareDAC", "RePair/RePair.cpp", "RePair::extractStringAndCompareDAC", 0),
